@@ -196,3 +196,33 @@ Proof.
   apply andb_true_iff in H as [H1 H2].
   split; apply (list_eqb_eq _ obs_eqb_eq); assumption.
 Qed.
+
+(** * 3. program-level differential records (driver (b): bytecode through Keeper.ApplyEvmMsg vs
+    go-ethereum core.ApplyMessage) — validation of the glue around the StateDB *)
+Record prog_obs := {
+  p_rej : bool;            (* message rejected before execution *)
+  p_gas : Z;               (* gas used after refunds *)
+  p_err : Z;               (* VM error class *)
+  p_ret : list Z; p_logs : list Z;
+  p_state : list arow      (* post-state of every address either side may have touched *)
+}.
+
+Definition Pprog (n g : prog_obs) : Prop :=
+  p_rej n = p_rej g /\
+  (p_rej n = false -> p_gas n = p_gas g /\ p_err n = p_err g /\ p_ret n = p_ret g /\ p_logs n = p_logs g) /\
+  map norm_row (p_state n) = map norm_row (p_state g).
+
+Definition Pprog_b (n g : prog_obs) : bool :=
+  Bool.eqb (p_rej n) (p_rej g) &&
+  (p_rej n || ((p_gas n =? p_gas g) && (p_err n =? p_err g) && zlist_eqb (p_ret n) (p_ret g) && zlist_eqb (p_logs n) (p_logs g))) &&
+  list_eqb row_eqb (map norm_row (p_state n)) (map norm_row (p_state g)).
+
+Lemma Pprog_b_sound n g : Pprog_b n g = true -> Pprog n g.
+Proof.
+  unfold Pprog_b, Pprog. intro H. apply andb_true_iff in H as [H H3]. apply andb_true_iff in H as [H1 H2].
+  split; [apply eqb_prop, H1|]. split; [|apply (list_eqb_eq _ row_eqb_eq), H3].
+  intro Hr. rewrite Hr in H2. simpl in H2.
+  repeat (apply andb_true_iff in H2 as [H2 ?]).
+  repeat match goal with X : (_ =? _) = true |- _ => apply Z.eqb_eq in X end.
+  repeat match goal with X : zlist_eqb _ _ = true |- _ => apply zlist_eqb_eq in X end. auto.
+Qed.
